@@ -742,6 +742,10 @@ def unkgroup(ctx):
             eq_t = t_t if r[1]["op"] == "Eq" else f_t
             if P not in fa.reachable(eq_t, avoid={H}):
                 conts.append((b, eq_t, r[1]))
+    if not conts:
+        r_ = _unkgroup_filter(ctx, E, crate, fa, S, H, gcalls, loc)
+        if r_ is not None:
+            return
     ctx.ob("UNKGROUP", "run-length-prefix-skip-present", len(conts) == 1, loc,
            "the prefix loop skips one length by an equality test (prefix length == run length)"
            if len(conts) == 1 else
@@ -753,7 +757,7 @@ def unkgroup(ctx):
     # operands of the equality: the loop variable and the run length (Sentence::groupable)
     ea, eb = S.operand(eq["a"]), S.operand(eq["b"])
     txt = "%s == %s" % (show(ea), show(eb))
-    has_run = "groupable" in txt
+    has_run = _is_run(ea) or _is_run(eb)
     ctx.ob("UNKGROUP", "skip-compares-with-run-length", has_run, fa.loc(Q),
            "the skipped length is the run length: %s" % txt if has_run else
            "the skip test %s does not compare with Sentence::groupable(start)" % txt)
@@ -850,6 +854,124 @@ def unkgroup(ctx):
            if not bad0 else
            "the flag `%s` can be set on a path with group()=false: a group=0 category loses "
            "the prefix whose length equals the run" % name)
+
+
+def _is_run(e):
+    """the run length itself: the value Sentence::groupable(start) returned (not an expression
+    that merely contains it, such as min(length, run))"""
+    e = strip_casts(e)
+    for _ in range(4):
+        if e[0] in ("ref", "deref") and len(e) > 1 and isinstance(e[1], tuple):
+            e = strip_casts(e[1])
+    if e[0] == "ap":         # the getter seen through: sent.groupable[start]
+        return tuple(str(x) for x in e[1].proj) == ("groupable", "[]")
+    return e[0] == "call" and short(e[1]) == "groupable"
+
+
+def _unkgroup_filter(ctx, E, crate, fa, S, H, gcalls, loc):
+    """The skip written as an adaptor: `for i in (1..=n).filter(|&i| !(grouped && i == run))`.
+    The closure's truth table over (flag, i == run) must be `keep unless flag and equal`; the
+    flag must be the outcome of CharInfo::group() itself. Returns None when the loop's iterator
+    has no filter closure (the caller then reports the missing skip)."""
+    from flow import bool_table
+    from r_panic import root_of
+    cur = fa.term(H)["args"][0]
+    filt = None
+    for _ in range(10):
+        o = fa.origin(cur)
+        if o[0] != "call":
+            break
+        nm = {strip_generics(x).rsplit("::", 1)[-1] for x in callee_paths(o[2])}
+        if "filter" in nm and len(o[2]["args"]) == 2:
+            if filt is not None:
+                return None
+            filt = o[2]
+        elif nm & {"skip", "take", "step_by", "rev", "skip_while", "take_while", "filter_map"}:
+            return None
+        if not o[2]["args"]:
+            break
+        cur = o[2]["args"][0]
+    if filt is None:
+        return None
+    cl = E.closure_of_operand(fa, filt["args"][1])
+    if cl is None:
+        return None
+    cpath, _caps = cl
+    cfa = E.fa(cpath)
+    CS = Sym(E, cfa)
+    capops = None
+    for b, i, s0 in fa.stmts():
+        rv = s0.get("rv")
+        if rv and rv["k"] == "agg" and rv.get("agg") == "closure" and rv.get("closure") == cpath:
+            capops = rv["ops"]
+    if capops is None:
+        return None
+
+    def cap_index(e):
+        if e[0] == "ap" and e[1].root == ("arg", 1) and len(e[1].proj) == 1 and str(e[1].proj[0]).startswith("#"):
+            return int(str(e[1].proj[0])[1:])
+        return None
+    # the flag: a captured bool that is the result of group() in the parent
+    flag_k = None
+    for k, o in enumerate(capops):
+        r = root_of(fa, o)
+        if r[0] == "rv" and r[1]["k"] == "ref":
+            r = root_of(fa, {"c": r[1]["place"]})
+        if r[0] == "call" and any(strip_generics(x).endswith("CharInfo::group") for x in callee_paths(r[2])):
+            flag_k = k
+    eqs = []
+
+    def atom_of(s0):
+        rv = s0["rv"]
+        if rv["k"] == "use":
+            e = CS.operand(rv["op"])
+            if cap_index(e) is not None and cap_index(e) == flag_k and \
+                    cfa.fn.locals[s0["lhs"]["l"]]["ty"] == "bool":
+                return (0, False)
+        if rv["k"] == "binop" and rv["op"] in ("Eq", "Ne") and rv.get("ty") != "bool":
+            ea, eb = CS.operand(rv["a"]), CS.operand(rv["b"])
+            sides = []
+            for e in (ea, eb):
+                k = cap_index(e)
+                sides.append("cap%d" % k if k is not None else show(e))
+            eqs.append((sides, ea, eb))
+            return (1, rv["op"] == "Ne")
+        return None
+    table = bool_table(cfa, atom_of, 2)
+    want = {(0, 0): {1}, (0, 1): {1}, (1, 0): {1}, (1, 1): {0}}
+    ctx.ob("UNKGROUP", "run-length-prefix-skip-present", bool(eqs), cfa.loc(0),
+           "the prefix loop filters one length out by an equality test (prefix length == run length)"
+           if eqs else
+           "the filter of the prefix loop has no `length == run` test")
+    if not eqs:
+        return True
+    # what is compared: the closure's item and the captured run length
+    sides, ea, eb = eqs[0]
+    run_ok = False
+    for sd, e in zip(sides, (ea, eb)):
+        if sd.startswith("cap"):
+            k = int(sd[3:])
+            if k < len(capops) and _is_run(S.operand(capops[k])):
+                run_ok = True
+    item_ok = any(e[0] == "ap" and e[1].root == ("arg", 2) for e in (ea, eb))
+    ctx.ob("UNKGROUP", "skip-compares-with-run-length", run_ok and item_ok, cfa.loc(0),
+           "the filtered length is the run length" if run_ok and item_ok else
+           "the filter's equality test (%s == %s) does not compare the prefix length with "
+           "Sentence::groupable(start)" % tuple(sides))
+    ok1 = flag_k is not None and table[(1, 1)] == want[(1, 1)]
+    ctx.ob("UNKGROUP", "skip-whenever-group=1", ok1, cfa.loc(0),
+           "with group()=true the prefix whose length equals the run is filtered out, whether or "
+           "not the grouped candidate was emitted (the flag is the result of group() itself)"
+           if ok1 else
+           "the filter keeps the run-length prefix for a group=1 category (%s): the omitted "
+           "over-long run comes back as a prefix of the same length"
+           % ("no captured group() result" if flag_k is None else "returns %s" % sorted(map(str, table[(1, 1)]))))
+    ok0 = flag_k is not None and all(table[k_] == want[k_] for k_ in ((0, 0), (0, 1), (1, 0)))
+    ctx.ob("UNKGROUP", "skip-only-for-group=1", ok0, cfa.loc(0),
+           "every other prefix length is kept; with group()=false nothing is filtered" if ok0 else
+           "the filter drops prefixes it must keep (flag, equal) -> %s"
+           % {k_: sorted(map(str, v)) for k_, v in table.items()})
+    return True
 
 
 def unkcover(ctx):
